@@ -26,6 +26,7 @@ type mergeCase struct {
 	// Kind by construction: same-pointers | renumbered | disjoint | clashing | empty
 	Kind      string  `json:"kind"`
 	Threshold float64 `json:"threshold"` // MinimumWeightedSimilarity
+	Jobs      int     `json:"jobs,omitempty"` // IndividualNodesCompareOptions.Jobs (library route)
 	ViaQuery  bool    `json:"via_query,omitempty"`
 }
 
@@ -154,6 +155,7 @@ func check(c mergeCase) (fl *harness.Failure, oc outcome) {
 	} else {
 		o := gedcom.NewIndividualNodesCompareOptions()
 		o.SimilarityOptions.MinimumWeightedSimilarity = c.Threshold
+		o.Jobs = c.Jobs
 		merged, err = gedcom.MergeDocumentsAndIndividuals(ld, rd, gedcom.EqualityMergeFunction, o)
 	}
 	if err != nil {
@@ -481,6 +483,7 @@ func genCase(rt *rapid.T) mergeCase {
 	mark(c.Left, "L")
 	mark(c.Right, "R")
 	c.Threshold = rapid.SampledFrom([]float64{gedcom.DefaultMinimumSimilarity, gedcom.DefaultMinimumSimilarity, 0.95, 0.3}).Draw(rt, "threshold")
+	c.Jobs = rapid.SampledFrom([]int{0, 0, 1, 2, 4, 16}).Draw(rt, "jobs")
 	c.ViaQuery = rapid.IntRange(0, 5).Draw(rt, "viaQuery") == 0
 	if c.ViaQuery {
 		c.Threshold = gedcom.DefaultMinimumSimilarity
@@ -490,7 +493,7 @@ func genCase(rt *rapid.T) mergeCase {
 
 func TestCheckMerge(t *testing.T) {
 	s := harness.NewSub("document-merge-accounting-and-references",
-		"pairs of referentially closed family graphs (<= 7 people, <= 3 families): a base and an independently edited copy (people dropped/added/renamed, facts changed) with the same pointers or completely renumbered, disjoint documents, documents whose pointers clash, an empty side; every person carries a unique marker and two unique fact leaves; thresholds default/0.95/0.3; library call and the query function MergeDocumentsAndIndividuals. Oracle: output decodes, every marker exactly once, no two people of one side merged, merged people hold all unique facts and every other line of both originals (an equal node under an equal parent chain), inputs unchanged; every HUSB/WIFE/CHIL of the output resolves to an individual carrying the marker of a person the inputs refer to in that family and role, every input reference is still there, FAMS/FAMC resolve to families; non-trivial = a merged pair and an unmatched person on each side")
+		"pairs of referentially closed family graphs (<= 7 people, <= 3 families): a base and an independently edited copy (people dropped/added/renamed, facts changed) with the same pointers or completely renumbered, disjoint documents, documents whose pointers clash, an empty side; every person carries a unique marker and two unique fact leaves; thresholds default/0.95/0.3; Jobs 0/1/2/4/16 (the merge matches people with the same machinery as Compare); library call and the query function MergeDocumentsAndIndividuals. Oracle: output decodes, every marker exactly once, no two people of one side merged, merged people hold all unique facts and every other line of both originals (an equal node under an equal parent chain), inputs unchanged; every HUSB/WIFE/CHIL of the output resolves to an individual carrying the marker of a person the inputs refer to in that family and role, every input reference is still there, FAMS/FAMC resolve to families; non-trivial = a merged pair and an unmatched person on each side")
 	s.Rapid(t, harness.Share(harness.Pick(30000, 600000)), 100, func(rt *rapid.T) {
 		c := genCase(rt)
 		fl, oc := check(c)
